@@ -46,6 +46,12 @@ func (lt *LogType) UnmarshalJSON(data []byte) error {
 		return err
 	}
 
+	switch s {
+	case "SET_METADATA", "NEW_TRANSACTION", "REVERTED_TRANSACTION", "DELETE_METADATA", "INSERTED_SCHEMA":
+	default:
+		// the value comes from a client document (imported log stream): not a reason to panic
+		return fmt.Errorf("unknown log type '%s'", s)
+	}
 	*lt = LogTypeFromString(s)
 
 	return nil
@@ -301,7 +307,7 @@ func (s *SavedMetadata) UnmarshalJSON(data []byte) error {
 	case strings.ToUpper(MetaTargetTypeTransaction):
 		id, err = strconv.ParseUint(string(x.TargetID), 10, 64)
 	default:
-		panic("unknown type")
+		return fmt.Errorf("unknown type '%s'", x.TargetType)
 	}
 	if err != nil {
 		return err
@@ -449,6 +455,10 @@ func HydrateLog(_type LogType, data []byte) (LogPayload, error) {
 	err := json.Unmarshal(data, &payload)
 	if err != nil {
 		return nil, err
+	}
+	if payload == nil {
+		// `"data": null` resets the interface value itself
+		return nil, fmt.Errorf("missing data for log of type '%s'", _type)
 	}
 
 	return reflect.ValueOf(payload).Elem().Interface().(LogPayload), nil
